@@ -201,8 +201,9 @@ def slots(template):
         if j < 0:
             break
         kind = template[j + 1]
-        if kind in 'ns':
-            res.append((j, kind))
+        if kind in 'nsf':
+            # file names are string arguments too
+            res.append((j, 's' if kind == 'f' else kind))
         i = j + 3
     return res
 
@@ -219,7 +220,7 @@ def instantiate(template, choice):
             break
         out.append(template[i:j])
         kind = template[j + 1]
-        if kind in 'ns':
+        if kind in 'nsf':
             out.append(choice.get(ordinal, DEFAULTS[kind]))
             ordinal += 1
         else:
